@@ -1342,6 +1342,15 @@ impl Check for C04 {
     }
     fn fixed_cases(_tier: Tier, _seed: u64) -> Vec<Case> {
         let mut out = vec![];
+        // large outputs (tens of KiB): buffering / batching must not lose or merge statements
+        for (n, salt) in [(120usize, 1u64), (400, 2), (900, 3)] {
+            for (pretty, turtle) in [(false, true), (false, false), (true, true), (true, false)] {
+                if pretty && n > 400 {
+                    continue; // the pretty printer is quadratic
+                }
+                out.push(Case { quads: crate::gen::bulk_quads(n, salt, !turtle), pretty, prefixes: None, indent: "  ".into(), turtle });
+            }
+        }
         let s = MT::iri("http://x/s");
         let p = MT::iri("http://x/p");
         let mk = |quads: Vec<MQ>, pretty: bool, prefixes: Option<Vec<(String, String)>>, turtle: bool| Case {
